@@ -185,7 +185,36 @@ from .c14 import rule_typestate as rule_connect_typestate  # noqa: E402  (re-att
 
 from .c13 import rule_no_tx_mapping  # noqa: E402  (a COMMIT the engine rejected must not be reported as committed)
 
+def rule_db_path_remembered(ctx):
+    """C18.i: a connection made with a db_path keeps it — whatever the auto-create flags say — because it is what a later
+    CREATE DATABASE of the session uses to decide where the new database's file goes (none: in memory, nothing on disk)."""
+    from ..connectmodel import points, run_point_states
+    from .c05 import _prov_nodes
+
+    prog = ctx.prog
+    n = 0
+    for pt in points():
+        if not pt.db_path or pt.schema == "builtin" or pt.db0 or pt.schema0:
+            continue
+        for path, st in run_point_states(prog, pt):
+            conn = path.value
+            if path.outcome != "return" or not isinstance(conn, Obj):
+                continue
+            n += 1
+            v = conn.attrs.get("db_path")
+            ok = v is not None and any(isinstance(x, Sym) and x.tag == "db_path" for x in _prov_nodes(v))
+            ctx.ob("C18.i", f"{pt!r}: the connection records the db_path it was given", ok, "fakesnow/conn.py", tagof(v) if v is not None else "unset")
+            if not ok:
+                ctx.violation("C18.i", "conn", "FakeSnowflakeConnection.__init__", f"db_path dropped with create_database={pt.create_database} create_schema={pt.create_schema}",
+                              "fakesnow/conn.py",
+                              f"{pt!r}: the connection's db_path is `{tagof(v) if v is not None else 'unset'}` although a db_path was given: a CREATE DATABASE "
+                              f"issued on this session attaches ':memory:' instead of a file under the path, so what the session commits is gone when "
+                              f"the process ends and a later session on the same path finds nothing")
+    ctx.floor("C18.i connect points with a db_path", n, 8)
+
+
 RULES = [
+    ("C18.i", rule_db_path_remembered, ("quick", "thorough")),
     ("C18.h", rule_no_tx_mapping, ("quick", "thorough")),
     ("C18.g", rule_no_file_destruction, ("quick", "thorough")),
     ("C18.f", rule_connect_typestate, ("quick", "thorough")),
